@@ -1,10 +1,9 @@
 import ast
+import hashlib
 import keyword
 import re
 from collections.abc import MutableMapping
 from typing import Union
-
-import numpy
 
 from .iterators import peekable_iter
 
@@ -96,14 +95,12 @@ def sanitize_variable_name(
     if base_name[0].isdigit():
         base_name = "_" + base_name
 
-    # Verify new name is not in env already, and if not add a random suffix.
+    # Verify new name is not in env already, and if so add a deterministic suffix.
     new_name = template.format(base_name)
+    suffix = name
     while new_name in env:
-        new_name = template.format(
-            base_name
-            + "_"
-            + "".join(numpy.random.choice(list("abcefghiklmnopqrstuvwxyz"), 10))
-        )
+        suffix = hashlib.md5(suffix.encode(), usedforsecurity=False).hexdigest()  # noqa: S324
+        new_name = template.format(base_name + "_" + suffix[:10])
 
     # Reuse the value for `name` for `new_name` also.
     if name in env:
